@@ -1063,6 +1063,19 @@ impl ExecutionEngine {
                                 &mut results,
                             );
                         }
+                    } else if let Some(GraphId::Named(graph_id)) = context.active_graph {
+                        // A subquery starts from fresh bindings, so inside
+                        // GRAPH ?g { { SELECT ... } } the row no longer binds
+                        // ?g: the enclosing GRAPH's current graph still scopes
+                        // the scan.
+                        Self::scan_one_graph(
+                            database,
+                            pattern,
+                            GraphId::Named(graph_id),
+                            Some((variable, graph_id)),
+                            &row,
+                            &mut results,
+                        );
                     } else {
                         let mut visible_graphs: Vec<_> =
                             context.dataset.named_graphs.iter().copied().collect();
